@@ -4,6 +4,8 @@ import (
 	"bytes"
 	"fmt"
 	"net/netip"
+
+	"github.com/jwhited/corebgp"
 	"strings"
 	"testing"
 	"time"
@@ -521,4 +523,95 @@ func TestC02(t *testing.T) {
 	r := hx.Start(t, "C02")
 	defer r.Finish(t)
 	hx.Rapid(r, t, "open_handshake", r.N(15000, 150000), genC02, c02Prop(t, r))
+	hx.Rapid(r, t, "decode_validate_pure", r.N(150000, 1500000), c02PureGen, c02PureProp)
+}
+
+// ---- pure differential: decode + validate (through the export shims) against
+// the reference classifier, without running an FSM. Much cheaper per case, so
+// it explores far more OPEN bodies and configurations than the handshake
+// sub-check; the wire-level behaviour is the handshake sub-check's business.
+
+type c02Pure struct {
+	LocalID  uint32 `json:"local_id"`
+	LocalAS  uint32 `json:"local_as"`
+	RemoteAS uint32 `json:"remote_as"`
+	Body     hx.Hex `json:"body"`
+}
+
+func c02PureProp(c c02Pure) hx.Verdict {
+	ref := wire.ClassifyOpen(c.Body, wire.OpenCfg{LocalID: c.LocalID, LocalAS: c.LocalAS, RemoteAS: c.RemoteAS})
+	cls := "valid"
+	if len(ref.Faults) > 0 {
+		cls = strings.Join(ref.Faults, "+")
+	} else if len(ref.Soft) > 0 {
+		cls = "soft:" + strings.Join(ref.Soft, "+")
+	}
+	v := hx.Verdict{Class: cls}
+	consistent := len(c.Body) >= 10 && int(c.Body[9]) == len(c.Body)-10
+	if (consistent || len(ref.Faults) == 1) && len(ref.Soft) == 0 {
+		v.NT = fmt.Sprintf("%d/%d/%d/%s", c.LocalID, c.LocalAS, c.RemoteAS, h64(c.Body))
+	}
+	var err error
+	o, derr := corebgp.VerifDecodeOpen(c.Body)
+	if derr != nil {
+		err = derr
+	} else {
+		err = corebgp.VerifValidateOpen(o, c.LocalID, c.LocalAS, c.RemoteAS)
+	}
+	if err == nil {
+		if ref.MustRefuse() {
+			v.Dev = hx.Devf("accepted-faulty-open", "decode+validate accepted an OPEN with faults %v (body %x)", ref.Faults, clip(c.Body))
+			return v
+		}
+		if ref.Parsed == nil {
+			v.Dev = hx.Devf("accepted-unparsable", "accepted an OPEN the strict parser rejects: %v", ref.ParsedErr)
+			return v
+		}
+		if d := sameOpen(o, *ref.Parsed); d != "" {
+			v.Dev = hx.Devf("decoded-wrong", "%s", d)
+		}
+		return v
+	}
+	n, out, ok := corebgp.VerifNotifFromErr(err)
+	if !ok || !out || n == nil {
+		v.Dev = hx.Devf("refusal-without-notification", "OPEN refused with %v, which carries no outbound NOTIFICATION", err)
+		return v
+	}
+	if ref.MustAccept() {
+		v.Dev = hx.Devf("refused-valid-open", "decode+validate refused a valid OPEN with (%d,%d,%x) (body %x)", n.Code, n.Subcode, clip(n.Data), clip(c.Body))
+		return v
+	}
+	if !ref.Allows(wire.Notif{Code: n.Code, Sub: n.Subcode, Data: n.Data}) {
+		// the (1,2) Bad Message Length for a short body carries the body as data: unspecified
+		v.Dev = hx.Devf("wrong-notification", "OPEN with faults %v soft %v refused with (%d,%d,%x); allowed: %v", ref.Faults, ref.Soft, n.Code, n.Subcode, clip(n.Data), ref.Allowed)
+	}
+	return v
+}
+
+func init() {
+	c02PureGen = func(rt *rapid.T) c02Pure {
+		c := genC02(rt)
+		return c02Pure{LocalID: ipToU32(c.RouterID), LocalAS: c.LocalAS, RemoteAS: c.RemoteAS, Body: c.Body}
+	}
+}
+
+var c02PureGen func(rt *rapid.T) c02Pure
+
+func TestC02Pure(t *testing.T) {} // placeholder so that -run ^TestC02$ stays exact
+
+func FuzzC02Classify(f *testing.F) {
+	f.Add(wire.NewOpen(65001, 90, 0x0a000002).Body(), uint32(0x0a000001), uint32(64512), uint32(65001))
+	f.Add(wire.NewOpen(4200000000, 0, 1).Body(), uint32(1), uint32(4200000000), uint32(4200000000))
+	f.Add([]byte{4, 0x5b, 0xa0, 0, 3, 1, 2, 3, 4, 0}, uint32(7), uint32(1), uint32(70000))
+	f.Add([]byte{4, 0, 1, 0, 3, 1, 2, 3, 4, 4, 2, 2, 65, 0}, uint32(7), uint32(1), uint32(1))
+	f.Add([]byte{4, 0, 1, 0, 3, 0xe0, 2, 3, 4, 8, 2, 6, 65, 4, 0, 0, 0, 1}, uint32(7), uint32(1), uint32(1))
+	f.Fuzz(func(t *testing.T, body []byte, lid, las, ras uint32) {
+		if len(body) > wire.MaxBody || las == 0 || ras == 0 {
+			return
+		}
+		v := c02PureProp(c02Pure{LocalID: lid, LocalAS: las, RemoteAS: ras, Body: body})
+		if v.Dev != nil {
+			t.Fatalf("key=%s %s", v.Dev.Key, v.Dev.Msg)
+		}
+	})
 }
